@@ -114,7 +114,7 @@ func SaturatedController(r *prng.R, k int) *rec.Rec {
 			}
 		}
 	case 7: // hello with thousands of elements
-		m = rec.New("hello").Set("xid", xid).SetL("elements", []*rec.Rec{rec.New("hello_versionbitmap").SetB("bitmaps", []byte{0, 0, 0, 0x12})})
+		m = rec.New("hello").Set("xid", xid).SetL("elements", []*rec.Rec{rec.New("hello_versionbitmap").SetB("bitmaps", HelloDefaultBitmap())})
 		ok = fillList(m, m, "elements", rec.New("hello_versionbitmap").SetB("bitmaps", r.Bytes(4)), target)
 	case 8: // TLV table mod with thousands of mappings
 		m = rec.New("nx_tlv_table_mod").Set("xid", xid).Set("command", uint64(r.Intn(3))).SetL("maps", nil)
